@@ -136,10 +136,46 @@ def container(kind, ids):
     raise ValueError(kind)
 
 
+class _Quiet:
+    def cls(self, *a, **k):
+        pass
+
+    def skip(self, *a, **k):
+        pass
+
+    def nt(self, *a, **k):
+        pass
+
+
 def check(case, rec):
+    t = gen.build(case["table"], rec=rec)
+    _check(case, rec, t)
+    if not case["inplace"] and not t.is_empty() and \
+            len(case["table"]["samp"]) % 3 == 0:
+        # the receiver of a non-in-place call is asked again after in-place
+        # edits: the answer is about what it holds now
+        t.transform(lambda v, i, md: v * 2 + 1, axis="observation",
+                    inplace=True)
+        for ax in ("observation", "sample"):
+            ids = [str(i) for i in t.ids(axis=ax)]
+            same = {i: i[:-1] + ("~" if i[-1:] != "~" else "^")
+                    for i in ids if i}
+            if len(same) == len(ids) and \
+                    len(set(same.values())) == len(ids):
+                t.update_ids(same, axis=ax, inplace=True)
+        rec.cls("asked-again-after-in-place-edits")
+        try:
+            _check(case, _Quiet(), t)
+        except Violation as v:
+            raise Violation(v.sub, "asked again after in-place edits: " +
+                            v.msg)
+
+
+def _check(case, rec, t):
+    from copy import deepcopy
     axis, invert, inplace = case["axis"], case["invert"], case["inplace"]
     sel = case["sel"]
-    t = gen.build(case["table"], rec=rec)
+    t0 = deepcopy(t)        # the table as it is now, for the differential
     before = observe.snapshot(t)
     lay = observe.layout(t)
     rec.cls("fmt:%s" % lay.get("format"))
@@ -203,7 +239,7 @@ def check(case, rec):
         exp = ref.filter_ids(axis, accepted, invert)
         _expect(r, t, exp, inplace, before, "filter(predicate)")
         # predicate filter == filter by the list of accepted IDs
-        t2 = gen.build(case["table"])
+        t2 = deepcopy(t0)
         r2 = t2.filter(list(accepted), axis=axis, invert=invert,
                        inplace=False)
         s1, s2 = observe.snapshot(r), observe.snapshot(r2)
